@@ -245,7 +245,7 @@ def check_C05(tier, seed):
             ('multi', consts('PCfg_A', [6, 248], [0, 1, 2], [0, 1, 3, 7, 8], [3, 7], ['L', 'M'], multi=True), w2, 'dev'),
             ('second-round', consts('PCfg_A', [6, 248], [0, 1, 2, 254], [0, 1, 3, 7, 8], [3, 7], ['L', 'M'], rounds=2), w2, 'dev'),
             ('late-masters', consts('PCfg_A', [6, 248], [0, 1, 2], [0, 1, 3, 7, 8], [3, 7], ['L', 'M'], rounds=2, late=True), w2, 'dev'),
-            ('same-clock-two-ports', consts('PCfg_A', [6, 248], [0, 1, 2], [1, 7, 8], [3, 7], ['L'], multi=True, rounds=2, sndports=(1, 2), latesecond=True), w2, 'dev'),
+            ('same-clock-two-ports', consts('PCfg_A', [248], [0, 1], [1, 7, 8], [3], ['L'], multi=True, rounds=2, sndports=(1, 2), latesecond=True), w2, 'dev'),
             ('late-masters-multi', consts('PCfg_A', [248], [0, 1], [1, 7, 8], [3, 7], ['L'], multi=True, rounds=2, late=True), w2, 'dev'),
             ('late-three-ports', consts('PCfg_T', [248], [0, 1], [1, 8], [3, 7], ['L'], rounds=2, late=True), world([e2e(), e2e(), e2e()]), 'dev'),
             ('three-ports', consts('PCfg_T', [6, 248], [0, 1, 2], [0, 1, 7, 8], [3, 7], ['L', 'M']), world([e2e(), e2e(), e2e()]), 'dev'),
@@ -330,8 +330,8 @@ def check_C06(tier, seed):
                    simulate=(15 if q else 300, 60))
     if not q:
         run_inst_suite('C06', v, acc, 'C06-three-masters', 'MCFm', c([2, 3, 9]), w1, 8, seed, owns, ['C06'], invariants=inv)
-        run_inst_suite('C06', v, acc, 'C06-capacity-sim', 'MCFm', c([2, 3, 9, 11, 12, 13, 14, 15, 16]), w1, 90, seed, owns, ['C06'],
-                       invariants=['NeedTwo', 'NeverUnqualified'], simulate=(150, 80))
+        run_inst_suite('C06', v, acc, 'C06-capacity-sim', 'MCFm', c([2, 3, 9, 11, 12, 13, 14, 15, 16]), w1, 50, seed, owns, ['C06'],
+                       invariants=['NeedTwo', 'NeverUnqualified'], simulate=(40, 45))
     # the intended design (distinct messages only) satisfies the strict statement ...
     plain_tlc('C06', v, acc, 'C06-intended-design', 'MCFm', c([2, 9], DevDup=False, Depth=8 if q else 10), invariants=inv + ['NeedTwoDistinct'])
     # ... the code's behaviour (a repeated sequenceId is stored again) does not: recorded finding, any other counterexample is new
